@@ -9,24 +9,41 @@ Import ListNotations.
 Open Scope string_scope.
 Open Scope list_scope.
 
+Inductive data_src :=
+| SrcClass (n : nat)                           (* 0 unloadable, 1 malformed, 2 the shipped data set (index 0 of the exported data sets) *)
+| SrcTables (sh : data_shape) (di : nat).      (* three loadable tables of this shape; [di] = index of the constants the real model derives
+                                                  from them (exported only when the real loader accepts them; otherwise any index) *)
+
 Record case := mkCase {
   k_config : config;
   k_readable : list string;             (* paths on which os.OpenFile succeeded (asked by the harness in the child's cwd) *)
-  k_data : list (string * nat);         (* data source path -> 0 unloadable, 1 malformed, 2 the exported data set *)
+  k_data : list (string * data_src);    (* data source path -> what is there *)
+  k_data_files : list (string * list string);   (* data source path -> the meta-file and the table files it names (relative to the cwd) *)
   k_out_is_file : bool;                 (* os.Stat of the OutputPath: an existing non-directory, or an error other than "does not exist" *)
   k_out_creatable : bool;               (* the saver's MkdirAll of a missing OutputPath succeeds *)
   k_profile_dir_ok : bool;              (* the directory of the CpuProfilePath exists *)
+  k_profile_creatable : bool;           (* ... and the path itself is not a directory: os.Create succeeds *)
+  k_file_creatable : bool;              (* the file system takes the summary file names of this scenario name (length, NUL) *)
   k_outcomes : list nat;                (* 0 load error, 1 interpret error, 2 completed, 3 Run() returned an error,
                                            4 loader panicked, 5 interpreter panicked, 6 process died in Run(), 7 no end within the time limit *)
   k_errs : list err;
   k_summaries : list string             (* sorted names of the *-Summary.* files (of the completed executions; all equal) *)
 }.
 
-Definition env_of (d0 : dataset) (c : case) : env :=
+Definition the_cwd : string := "/verif-c19-cwd".      (* no generated absolute path lies inside the children's working directories *)
+
+Definition env_of (ds : list dataset) (d0 : dataset) (c : case) : env :=
   mkEnv (fun p => existsb (String.eqb p) (k_readable c))
-        (fun p => match assoc p (k_data c) with Some 2%nat => DataOk d0 | Some 1%nat => DataMalformed | _ => DataUnloadable end)
-        (fun _ => k_out_is_file c) (fun _ => negb (k_out_is_file c) && k_out_creatable c) (fun _ => k_profile_dir_ok c) (fun _ => k_profile_dir_ok c)
-        false (fun _ => true).
+        (fun p => match assoc p (k_data c) with
+                  | Some (SrcClass 2%nat) => DataOk d0
+                  | Some (SrcClass 1%nat) => DataMalformed
+                  | Some (SrcTables sh di) => DataTables sh (nth di ds d0)
+                  | _ => DataUnloadable
+                  end)
+        (fun _ => k_out_is_file c) (fun _ => negb (k_out_is_file c) && k_out_creatable c) (fun _ => k_profile_dir_ok c)
+        (fun _ => k_profile_creatable c)
+        false (fun _ => true) (fun _ => k_file_creatable c) the_cwd
+        (fun p => match assoc p (k_data_files c) with Some l => l | None => [] end).
 
 (* round-robin picks: every index n times, ascending *)
 Definition canon_picks (n : nat) : list nat := List.concat (repeat (seq 0 n) n).
@@ -37,7 +54,8 @@ Definition err_eqb (a b : err) : bool :=
   | EDecode, EDecode | EUnknownKeys, EUnknownKeys | EModelUnregistered, EModelUnregistered | EModelLimits, EModelLimits
   | EAnnealerUnregistered, EAnnealerUnregistered | EScenarioName, EScenarioName
   | EModelData, EModelData | ELimitNotBinding, ELimitNotBinding | EDecisionVariable, EDecisionVariable
-  | EOutputPath, EOutputPath | EExcel, EExcel | EProfilePath, EProfilePath => true
+  | EOutputPath, EOutputPath | EExcel, EExcel | EProfilePath, EProfilePath
+  | EProfileBlocksOutput, EProfileBlocksOutput | EProfileOverwritesInput, EProfileOverwritesInput => true
   | EMandatory x, EMandatory y | EModelParam x, EModelParam y | EAnnealerParam x, EAnnealerParam y
   | ELogDestination x, ELogDestination y => String.eqb x y
   | _, _ => false
@@ -56,8 +74,8 @@ Inductive prediction :=
 | PExactly (code : nat) (files : list string)
 | PAnyOf (codes : list nat).
 
-Definition predict (F : facts) (T : tables) (d0 : dataset) (c : case) : prediction :=
-  let E := env_of d0 c in
+Definition predict (F : facts) (T : tables) (d0 : dataset) (ds : list dataset) (c : case) : prediction :=
+  let E := env_of ds d0 c in
   match load F (k_config c) with
   | Crash => PExactly 4 []
   | Errors es => PErrors 0 es
@@ -80,8 +98,17 @@ Definition predict (F : facts) (T : tables) (d0 : dataset) (c : case) : predicti
 
 Definition nat_in (n : nat) (l : list nat) : bool := existsb (Nat.eqb n) l.
 
-Definition check_case (F : facts) (T : tables) (d0 : dataset) (c : case) : bool :=
-  match predict F T d0 c with
+(* the constants the real model derived from tables the MODEL accepts are well formed (the hypothesis [wf_dataset] of the run theorem),
+   unless a subcatchment is listed twice *)
+Definition tables_wf (d0 : dataset) (ds : list dataset) (c : case) : bool :=
+  forallb (fun kv => match snd kv with
+                     | SrcTables sh di => negb (shape_ok sh && subcatchments_distinct sh) || wf_dataset (nth di ds d0)
+                     | SrcClass _ => true
+                     end) (k_data c).
+
+Definition check_case (F : facts) (T : tables) (d0 : dataset) (ds : list dataset) (c : case) : bool :=
+  tables_wf d0 ds c &&
+  match predict F T d0 ds c with
   | PErrors code es => same_set Nat.eqb (k_outcomes c) [code] && errs_match es (k_errs c)
   | PExactly code files =>
       same_set Nat.eqb (k_outcomes c) [code]
@@ -89,18 +116,22 @@ Definition check_case (F : facts) (T : tables) (d0 : dataset) (c : case) : bool 
   | PAnyOf codes => negb (match k_outcomes c with [] => true | _ => false end) && subset Nat.eqb (k_outcomes c) codes
   end.
 
-Fixpoint mismatches_from (F : facts) (T : tables) (d0 : dataset) (cs : list case) (n : nat) : list nat :=
+Fixpoint mismatches_from (F : facts) (T : tables) (d0 : dataset) (ds : list dataset) (cs : list case) (n : nat) : list nat :=
   match cs with
   | [] => []
-  | c :: cs' => if check_case F T d0 c then mismatches_from F T d0 cs' (S n) else n :: mismatches_from F T d0 cs' (S n)
+  | c :: cs' => if check_case F T d0 ds c then mismatches_from F T d0 ds cs' (S n) else n :: mismatches_from F T d0 ds cs' (S n)
   end.
 
-Definition mismatches (F : facts) (T : tables) (d0 : dataset) (cs : list case) : list nat :=
-  if wf_dataset d0 then mismatches_from F T d0 cs 0 else [999%nat].
+(* [ds]: the shipped data set first, then the constants of every generated data source the real loader accepted *)
+Definition mismatches (F : facts) (T : tables) (ds : list dataset) (cs : list case) : list nat :=
+  match ds with
+  | d0 :: _ => if wf_dataset d0 then mismatches_from F T d0 ds cs 0 else [999%nat]
+  | [] => [999%nat]
+  end.
 
 (* what the model predicts, for the evidence / a replay *)
-Definition outcome_code (F : facts) (T : tables) (d0 : dataset) (c : case) : list nat :=
-  match predict F T d0 c with
+Definition outcome_code (F : facts) (T : tables) (d0 : dataset) (ds : list dataset) (c : case) : list nat :=
+  match predict F T d0 ds c with
   | PErrors code _ | PExactly code _ => [code]
   | PAnyOf codes => codes
   end.
